@@ -266,6 +266,11 @@ type ipfsFake struct {
 	script  map[string]string // cid string -> "ok" | "fail" | "block"
 	entered chan string       // cid strings of blocked calls, as they arrive
 	release chan struct{}
+	// round 7: scripted failures and arbitrary answers
+	ans    map[string]string // cid string -> <lsD><lsR><lsCid> chars overriding the table
+	idx    map[string]int    // cid string -> cid index (picks the type string variant)
+	lsErr  map[string]bool   // "direct" / "recursive": that PinLs call fails
+	cidErr map[string]bool   // cid string: PinLsCid fails
 }
 
 var errScripted = errors.New("scripted failure")
@@ -295,21 +300,52 @@ func (f *ipfsFake) Unpin(ctx context.Context, in *api.Pin, out *struct{}) error 
 	return f.act(ctx, in)
 }
 
+// typeString is the "Type" string the daemon's pin/ls answer carries for a
+// class of answers; the connector turns it into an IPFSPinStatus with the real
+// api.IPFSPinStatusFromString, like ipfshttp does.
+var bugStrings = []string{"weird", "", "Direct", "direct ", "all", "recursiv", "in direct", "DIRECT", "indirec"}
+var recStrings = []string{"recursive", "recursive", "recursive-ish", "recursive2"}
+var indStrings = []string{"indirect through QmXyz", "indirect", "indirectly"}
+
+func typeString(class byte, k int) string {
+	if k < 0 {
+		k = 0
+	}
+	switch class {
+	case 'd':
+		return "direct"
+	case 'r':
+		return recStrings[k%len(recStrings)]
+	case 'i':
+		return indStrings[k%len(indStrings)]
+	}
+	return bugStrings[k%len(bugStrings)]
+}
+
 // PinLsCid answers like ipfshttp: pin/ls?arg=<cid>&type=<mode of the pin>.
 func (f *ipfsFake) PinLsCid(ctx context.Context, in *api.Pin, out *api.IPFSPinStatus) error {
 	f.mu.Lock()
 	defer f.mu.Unlock()
-	if !f.up {
+	key := in.Cid.String()
+	if !f.up || f.cidErr[key] {
 		*out = api.IPFSPinStatusError
 		return errScripted
 	}
+	if a, ok := f.ans[key]; ok {
+		if a[2] == 'u' {
+			*out = api.IPFSPinStatusUnpinned
+		} else {
+			*out = api.IPFSPinStatusFromString(typeString(a[2], f.idx[key]))
+		}
+		return nil
+	}
 	direct := in.MaxDepth.ToPinMode() == api.PinModeDirect
-	switch f.table[in.Cid.String()] {
+	switch f.table[key] {
 	case 'i':
-		*out = api.IPFSPinStatusIndirect
+		*out = api.IPFSPinStatusFromString(typeString('i', f.idx[key]))
 	case 'd':
 		if direct {
-			*out = api.IPFSPinStatusDirect
+			*out = api.IPFSPinStatusFromString("direct")
 		} else {
 			*out = api.IPFSPinStatusUnpinned
 		}
@@ -317,7 +353,7 @@ func (f *ipfsFake) PinLsCid(ctx context.Context, in *api.Pin, out *api.IPFSPinSt
 		if direct {
 			*out = api.IPFSPinStatusUnpinned
 		} else {
-			*out = api.IPFSPinStatusRecursive
+			*out = api.IPFSPinStatusFromString(typeString('r', f.idx[key]))
 		}
 	default:
 		*out = api.IPFSPinStatusUnpinned
@@ -329,18 +365,31 @@ func (f *ipfsFake) PinLsCid(ctx context.Context, in *api.Pin, out *api.IPFSPinSt
 func (f *ipfsFake) PinLs(ctx context.Context, in string, out *map[string]api.IPFSPinStatus) error {
 	f.mu.Lock()
 	defer f.mu.Unlock()
-	if !f.up {
+	if !f.up || f.lsErr[in] {
 		return errScripted
 	}
 	m := make(map[string]api.IPFSPinStatus)
 	for k, v := range f.table {
+		if a, ok := f.ans[k]; ok {
+			var ch byte = '-'
+			switch in {
+			case "direct":
+				ch = a[0]
+			case "recursive":
+				ch = a[1]
+			}
+			if ch != '-' {
+				m[k] = api.IPFSPinStatusFromString(typeString(ch, f.idx[k]))
+			}
+			continue
+		}
 		switch {
 		case v == 'd' && (in == "direct" || in == "all"):
-			m[k] = api.IPFSPinStatusDirect
+			m[k] = api.IPFSPinStatusFromString("direct")
 		case v == 'r' && (in == "recursive" || in == "all"):
-			m[k] = api.IPFSPinStatusRecursive
+			m[k] = api.IPFSPinStatusFromString(typeString('r', f.idx[k]))
 		case v == 'i' && (in == "indirect" || in == "all"):
-			m[k] = api.IPFSPinStatusIndirect
+			m[k] = api.IPFSPinStatusFromString(typeString('i', f.idx[k]))
 		}
 	}
 	*out = m
@@ -370,19 +419,38 @@ func sortedPairs(m map[int]int, extra []string) string {
 
 // runT returns the output part, or "" plus a reason when the infrastructure
 // (not the code under test) failed.
-func runT(c tcase) (res string, inconclusive string) {
+func runT(c tcase) (res string, inconclusive string) { return runTO(c, nil) }
+
+func runTO(c tcase, o *topts) (res string, inconclusive string) {
 	ctx := context.Background()
-	st, err := dsstate.New(inmem.New(), "", nil)
+	if o == nil {
+		o = &topts{}
+	}
+	fds := &faultyDS{Datastore: inmem.New()}
+	st, err := dsstate.New(fds, "", nil)
 	if err != nil {
 		return "", "dsstate: " + err.Error()
 	}
 	index := map[string]int{}
 	fake := &ipfsFake{up: c.up, table: map[string]byte{}, script: map[string]string{},
-		entered: make(chan string, 256), release: make(chan struct{})}
+		entered: make(chan string, 256), release: make(chan struct{}),
+		ans: map[string]string{}, idx: map[string]int{}, lsErr: map[string]bool{}, cidErr: map[string]bool{}}
+	getFails := map[string]bool{}
+	for k, a := range o.ans {
+		fake.ans[common.CidN(k).String()] = a
+	}
+	for _, k := range o.getE {
+		getFails[common.CidN(k).String()] = true
+	}
+	for _, k := range o.cidE {
+		fake.cidErr[common.CidN(k).String()] = true
+	}
+	fake.lsErr["direct"], fake.lsErr["recursive"] = o.lsDErr, o.lsRErr
 	var pi, pq int
 	for _, r := range c.recs {
 		ci := common.CidN(r.cid)
 		index[ci.String()] = r.cid
+		fake.idx[ci.String()] = r.cid
 		fake.table[ci.String()] = r.ipfs
 		if r.pin != nil {
 			if err := st.Add(ctx, r.pin.apiPin(ci, peerN)); err != nil {
@@ -403,7 +471,14 @@ func runT(c tcase) (res string, inconclusive string) {
 	if pq > 0 {
 		cfg.ConcurrentPins = pi // every worker is busy: queued pins stay queued
 	}
-	getState := func(ctx context.Context) (state.ReadOnly, error) { return st, nil }
+	stateDown := false
+	var ro state.ReadOnly = &faultyState{State: st, getFails: getFails}
+	getState := func(ctx context.Context) (state.ReadOnly, error) {
+		if stateDown {
+			return nil, errScripted
+		}
+		return ro, nil
+	}
 	srv := rpc.NewServer(nil, "verif-c06")
 	if err := srv.RegisterName("IPFSConnector", fake); err != nil {
 		return "", "register: " + err.Error()
@@ -533,18 +608,54 @@ func runT(c tcase) (res string, inconclusive string) {
 	default:
 	}
 
+	// the scripted failures apply to the observations, not to the set-up
+	stateDown = o.stateErr
+	fds.mode = o.listMode
+	if o.recoverMode != "" {
+		return observeRecover(ctx, tr, c, fake, index, o.recoverMode, &released)
+	}
+
 	// observations
+	self := peerN(c.self)
+	infoBits := func(pi, again *api.PinInfo, want cid.Cid) int {
+		b := 0
+		if pi.Cid.Equals(want) {
+			b |= 1
+		}
+		if pi.Peer == self {
+			b |= 2
+		}
+		if pi.PeerName == "self" {
+			b |= 4
+		}
+		if pi.Error != "" {
+			b |= 8
+		}
+		if !pi.TS.IsZero() && again != nil && !again.TS.Before(pi.TS) {
+			b |= 16
+		}
+		return b
+	}
 	each := map[int]int{}
+	eachInfo := map[int]int{}
 	for _, r := range c.recs {
-		pi := tr.Status(ctx, common.CidN(r.cid))
+		ci := common.CidN(r.cid)
+		pi := tr.Status(ctx, ci)
 		if pi == nil {
 			each[r.cid] = 0
+			eachInfo[r.cid] = 0
 			continue
 		}
 		each[r.cid] = int(pi.Status)
+		if o.info {
+			eachInfo[r.cid] = infoBits(pi, tr.Status(ctx, ci), ci)
+		}
 	}
 	var sb strings.Builder
 	sb.WriteString("S=" + sortedPairs(each, nil))
+	if o.info {
+		sb.WriteString(" SI=" + sortedPairs(eachInfo, nil))
+	}
 	for _, f := range c.filters {
 		l := tr.StatusAll(ctx, api.TrackerStatus(f))
 		m := map[int]int{}
@@ -559,6 +670,24 @@ func runT(c tcase) (res string, inconclusive string) {
 		}
 		sort.Strings(extra)
 		fmt.Fprintf(&sb, " L%d=%s", f, sortedPairs(m, extra))
+		if f == 0 && o.info {
+			again := map[string]*api.PinInfo{}
+			for _, pi := range tr.StatusAll(ctx, api.TrackerStatus(0)) {
+				again[pi.Cid.String()] = pi
+			}
+			li := map[int]int{}
+			seen := map[int]int{}
+			for _, pi := range l {
+				if k, ok := index[pi.Cid.String()]; ok {
+					seen[k]++
+					li[k] = infoBits(pi, again[pi.Cid.String()], common.CidN(k))
+					if seen[k] > 1 {
+						li[k] &^= 1
+					}
+				}
+			}
+			fmt.Fprintf(&sb, " LI=%s", sortedPairs(li, nil))
+		}
 	}
 	select {
 	case <-fake.entered:
@@ -810,6 +939,23 @@ type gnet struct {
 	statusAl map[int]string   // gs: peer -> "e" | "a" | "o..."
 	lists    map[int][][2]int // gs: peer -> (cid, status)
 	ids      map[peer.ID]int
+	// round 7: members that never answer ("t"), members answering for another cid ("c<st>")
+	blocked  chan int      // peers whose handler is blocked, as they arrive
+	returned chan int      // peers whose handler returned
+	release  chan struct{} // closed to let blocked handlers go
+}
+
+func (n *gnet) block(ctx context.Context, idx int) error {
+	n.mu.Lock()
+	rel := n.release
+	n.mu.Unlock()
+	n.blocked <- idx
+	select {
+	case <-rel:
+	case <-ctx.Done():
+	case <-time.After(waitFor):
+	}
+	return errScripted
 }
 
 func (n *gnet) peerOf(i int) peer.ID {
@@ -835,6 +981,14 @@ func (s *peerSvc) Status(ctx context.Context, in cid.Cid, out *api.PinInfo) erro
 	s.net.mu.Lock()
 	r := s.net.status[s.idx]
 	s.net.mu.Unlock()
+	defer func() { s.net.returned <- s.idx }()
+	if r == "t" {
+		return s.net.block(ctx, s.idx)
+	}
+	if strings.HasPrefix(r, "c") { // answers about a cid it was not asked about
+		in = common.CidN(63)
+		r = "o" + r[1:]
+	}
 	if !strings.HasPrefix(r, "o") {
 		return errScripted
 	}
@@ -849,6 +1003,10 @@ func (s *peerSvc) StatusAll(ctx context.Context, in api.TrackerStatus, out *[]*a
 	r := s.net.statusAl[s.idx]
 	l := s.net.lists[s.idx]
 	s.net.mu.Unlock()
+	defer func() { s.net.returned <- s.idx }()
+	if r == "t" {
+		return s.net.block(ctx, s.idx)
+	}
 	if !strings.HasPrefix(r, "o") {
 		return errScripted
 	}
@@ -864,7 +1022,8 @@ func (s *peerSvc) StatusAll(ctx context.Context, in api.TrackerStatus, out *[]*a
 var proto = protocol.ID("/verif/c06/rpc")
 
 func newGnet(ctx context.Context) (*gnet, error) {
-	n := &gnet{status: map[int]string{}, statusAl: map[int]string{}, lists: map[int][][2]int{}, ids: map[peer.ID]int{}}
+	n := &gnet{status: map[int]string{}, statusAl: map[int]string{}, lists: map[int][][2]int{}, ids: map[peer.ID]int{},
+		blocked: make(chan int, 64), returned: make(chan int, 256), release: make(chan struct{})}
 	for i := 0; i < poolSize; i++ {
 		h, err := libp2p.New(ctx, libp2p.ListenAddrStrings("/ip4/127.0.0.1/tcp/0"))
 		if err != nil {
@@ -898,8 +1057,10 @@ func newGnet(ctx context.Context) (*gnet, error) {
 }
 
 type fakeConsensus struct {
-	peers []peer.ID
-	st    state.State
+	peers    []peer.ID
+	st       state.State
+	peersErr bool
+	stateErr bool
 }
 
 func (f *fakeConsensus) SetClient(*rpc.Client)                         {}
@@ -909,11 +1070,21 @@ func (f *fakeConsensus) LogPin(context.Context, *api.Pin) error        { return 
 func (f *fakeConsensus) LogUnpin(context.Context, *api.Pin) error      { return nil }
 func (f *fakeConsensus) AddPeer(context.Context, peer.ID) error        { return nil }
 func (f *fakeConsensus) RmPeer(context.Context, peer.ID) error         { return nil }
-func (f *fakeConsensus) State(context.Context) (state.ReadOnly, error) { return f.st, nil }
+func (f *fakeConsensus) State(context.Context) (state.ReadOnly, error) {
+	if f.stateErr {
+		return nil, errScripted
+	}
+	return f.st, nil
+}
 func (f *fakeConsensus) Leader(context.Context) (peer.ID, error)       { return "", nil }
 func (f *fakeConsensus) WaitForSync(context.Context) error             { return nil }
 func (f *fakeConsensus) Clean(context.Context) error                   { return nil }
-func (f *fakeConsensus) Peers(context.Context) ([]peer.ID, error)      { return f.peers, nil }
+func (f *fakeConsensus) Peers(context.Context) ([]peer.ID, error) {
+	if f.peersErr {
+		return nil, errScripted
+	}
+	return f.peers, nil
+}
 func (f *fakeConsensus) IsTrustedPeer(context.Context, peer.ID) bool   { return true }
 func (f *fakeConsensus) Trust(context.Context, peer.ID) error          { return nil }
 func (f *fakeConsensus) Distrust(context.Context, peer.ID) error       { return nil }
@@ -929,6 +1100,8 @@ type gcase struct {
 	pins     map[int]*pinFact // gs
 	pinOrder []int
 	lists    map[int][][2]int // gs
+	peersErr bool             // consensus.Peers fails (members printed as "!")
+	stateErr bool             // gc: the state fails (pin printed as "!")
 }
 
 func (c gcase) input() string {
@@ -936,7 +1109,15 @@ func (c gcase) input() string {
 	if c.follower {
 		fo = 1
 	}
+	ms := common.Ints(c.members)
+	if c.peersErr {
+		ms = "!"
+	}
 	if c.kind == "gc" {
+		ps := c.pin.String()
+		if c.stateErr {
+			ps = "!"
+		}
 		rs := "-"
 		if len(c.order) > 0 {
 			l := make([]string, len(c.order))
@@ -945,7 +1126,7 @@ func (c gcase) input() string {
 			}
 			rs = strings.Join(l, ",")
 		}
-		return fmt.Sprintf("C06 gc 0 %d %s %s %s", fo, common.Ints(c.members), c.pin, rs)
+		return fmt.Sprintf("C06 gc 0 %d %s %s %s", fo, ms, ps, rs)
 	}
 	ps := "-"
 	if len(c.pinOrder) > 0 {
@@ -971,7 +1152,7 @@ func (c gcase) input() string {
 		}
 		rs = strings.Join(l, "/")
 	}
-	return fmt.Sprintf("C06 gs 0 %d %s %s %s", fo, common.Ints(c.members), ps, rs)
+	return fmt.Sprintf("C06 gs 0 %d %s %s %s", fo, ms, ps, rs)
 }
 
 func parseG(kind string, f []string) (gcase, bool) {
@@ -980,7 +1161,9 @@ func parseG(kind string, f []string) (gcase, bool) {
 		return c, false
 	}
 	c.follower = f[1] == "1"
-	if f[2] != "-" {
+	if f[2] == "!" {
+		c.peersErr = true
+	} else if f[2] != "-" {
 		for _, x := range strings.Split(f[2], ",") {
 			v, err := strconv.Atoi(x)
 			if err != nil || v < 0 || v >= 64 {
@@ -991,7 +1174,9 @@ func parseG(kind string, f []string) (gcase, bool) {
 	}
 	if kind == "gc" {
 		var ok bool
-		if c.pin, ok = parsePin(f[3]); !ok {
+		if f[3] == "!" {
+			c.stateErr = true
+		} else if c.pin, ok = parsePin(f[3]); !ok {
 			return c, false
 		}
 		if f[4] != "-" {
@@ -1007,8 +1192,8 @@ func parseG(kind string, f []string) (gcase, bool) {
 				if _, dup := c.replies[p]; dup {
 					return c, false
 				}
-				if kv[1] != "e" && kv[1] != "a" {
-					if !strings.HasPrefix(kv[1], "o") {
+				if kv[1] != "e" && kv[1] != "a" && kv[1] != "t" {
+					if !strings.HasPrefix(kv[1], "o") && !strings.HasPrefix(kv[1], "c") {
 						return c, false
 					}
 					if _, err := strconv.Atoi(kv[1][1:]); err != nil {
@@ -1053,7 +1238,7 @@ func parseG(kind string, f []string) (gcase, bool) {
 				}
 				c.order = append(c.order, p)
 				switch {
-				case kv[1] == "e" || kv[1] == "a":
+				case kv[1] == "e" || kv[1] == "a" || kv[1] == "t":
 					c.replies[p] = kv[1]
 				case strings.HasPrefix(kv[1], "o"):
 					c.replies[p] = "o"
@@ -1082,6 +1267,9 @@ func parseG(kind string, f []string) (gcase, bool) {
 	for p, r := range c.replies {
 		if p >= poolSize && r != "e" {
 			return c, false
+		}
+		if r == "t" && c.follower && p != 0 {
+			continue
 		}
 		if p == 0 && r == "a" {
 			return c, false
@@ -1122,7 +1310,7 @@ func runG(n *gnet, c gcase) (res string, inconclusive string) {
 			return "", "state add: " + err.Error()
 		}
 	}
-	cons := &fakeConsensus{st: st}
+	cons := &fakeConsensus{st: st, peersErr: c.peersErr, stateErr: c.stateErr}
 	for _, m := range c.members {
 		cons.peers = append(cons.peers, n.peerOf(m))
 	}
@@ -1157,43 +1345,114 @@ func runG(n *gnet, c gcase) (res string, inconclusive string) {
 		sort.Strings(extra)
 		return sortedPairs(m, extra)
 	}
-	if c.kind == "gc" {
-		gpi, err := cl.Status(ctx, common.CidN(0))
-		if err != nil || gpi == nil {
-			return "err", ""
+	hasTimeout := false
+	for _, r := range c.replies {
+		if r == "t" {
+			hasTimeout = true
 		}
-		return showMap(gpi.PeerMap), ""
 	}
-	l, err := cl.StatusAll(ctx, api.TrackerStatusUndefined)
-	if err != nil {
-		return "err", ""
-	}
-	type ent struct {
-		k int
-		s string
-	}
-	var ents []ent
-	for _, g := range l {
-		k := common.CidIndex(g.Cid, 64)
-		if k < 0 {
-			k = 99999
+	// drain what earlier cases left behind
+	for drained := false; !drained; {
+		select {
+		case <-n.blocked:
+		case <-n.returned:
+		default:
+			drained = true
 		}
-		ents = append(ents, ent{k, fmt.Sprintf("c%d=%s", k, showMap(g.PeerMap))})
 	}
-	if len(ents) == 0 {
-		return "-", ""
-	}
-	sort.Slice(ents, func(a, b int) bool {
-		if ents[a].k != ents[b].k {
-			return ents[a].k < ents[b].k
+	call := func() string {
+		if c.kind == "gc" {
+			gpi, err := cl.Status(ctx, common.CidN(0))
+			if err != nil || gpi == nil {
+				return "err"
+			}
+			return showMap(gpi.PeerMap)
 		}
-		return ents[a].s < ents[b].s
-	})
-	ss := make([]string, len(ents))
-	for i, e := range ents {
-		ss[i] = e.s
+		l, err := cl.StatusAll(ctx, api.TrackerStatusUndefined)
+		if err != nil {
+			return "err"
+		}
+		type ent struct {
+			k int
+			s string
+		}
+		var ents []ent
+		for _, g := range l {
+			k := common.CidIndex(g.Cid, 64)
+			if k < 0 {
+				k = 99999
+			}
+			ents = append(ents, ent{k, fmt.Sprintf("c%d=%s", k, showMap(g.PeerMap))})
+		}
+		if len(ents) == 0 {
+			return "-"
+		}
+		sort.Slice(ents, func(a, b int) bool {
+			if ents[a].k != ents[b].k {
+				return ents[a].k < ents[b].k
+			}
+			return ents[a].s < ents[b].s
+		})
+		ss := make([]string, len(ents))
+		for i, e := range ents {
+			ss[i] = e.s
+		}
+		return strings.Join(ss, " ")
 	}
-	return strings.Join(ss, " "), ""
+	if !hasTimeout {
+		return call(), ""
+	}
+	// some member never answers: the request ends when the cluster context
+	// does. Let every other member answer first (no handler activity for
+	// `quiet`), then cancel.
+	done := make(chan string, 1)
+	go func() {
+		defer func() {
+			if r := recover(); r != nil {
+				done <- "panic"
+			}
+		}()
+		done <- call()
+	}()
+	nblocked := 0
+	for {
+		select {
+		case out := <-done:
+			n.finishBlocked(nblocked)
+			return out, ""
+		case <-n.blocked:
+			nblocked++
+		case <-n.returned:
+		case <-time.After(quiet):
+			cl.VerifCancel()
+			select {
+			case out := <-done:
+				n.finishBlocked(nblocked)
+				return out, ""
+			case <-time.After(waitFor):
+				n.finishBlocked(nblocked)
+				return "", "timeout: the cluster-wide call did not end with its context"
+			}
+		}
+	}
+}
+
+var quiet = 300 * time.Millisecond
+
+// finishBlocked lets the blocked handlers go and arms a new release channel.
+func (n *gnet) finishBlocked(nblocked int) {
+	n.mu.Lock()
+	close(n.release)
+	n.release = make(chan struct{})
+	n.mu.Unlock()
+	deadline := time.After(2 * time.Second)
+	for i := 0; i < nblocked; i++ {
+		select {
+		case <-n.returned:
+		case <-deadline:
+			return
+		}
+	}
 }
 
 func genMembers(r *common.Rng) []int {
@@ -1269,7 +1528,60 @@ func genGc(r *common.Rng) gcase {
 		}
 		c.order = append(c.order, i)
 	}
+	genGFaults(r, &c)
 	return c
+}
+
+// timeoutOneIn: one cluster-wide case in so many has a member that never answers (each costs about two seconds)
+var timeoutOneIn = 500
+
+// genGFaults is the fault stream of the cluster-wide cases; it draws from a
+// fork so that the mostly-valid stream is the one of the earlier rounds.
+func genGFaults(r0 *common.Rng, c *gcase) {
+	r := r0.Fork(7)
+	switch x := r.Intn(50); {
+	case x == 0:
+		c.peersErr = true
+	case x == 1 && c.kind == "gc":
+		c.stateErr = true
+	}
+	if r.Chance(1, timeoutOneIn) {
+		p := r.Intn(poolSize)
+		if _, ok := c.replies[p]; ok {
+			c.replies[p] = "t"
+			delete(c.lists, p)
+		}
+	}
+	if c.kind == "gc" {
+		for p, v := range c.replies {
+			if strings.HasPrefix(v, "o") && r.Chance(1, 12) {
+				c.replies[p] = "c" + v[1:] // a member answering about another cid
+			}
+		}
+		return
+	}
+	// gs: a member's list with a repeated cid (two different statuses) or with an entry missing
+	if r.Chance(1, 6) {
+		for p := 0; p < poolSize; p++ {
+			l := c.lists[p]
+			if c.replies[p] != "o" || len(l) == 0 || !r.Chance(1, 2) {
+				continue
+			}
+			e := l[r.Intn(len(l))]
+			other := e[1] // what else this member may say about the cid, given the facts
+			if pf := c.pins[e[0]]; pf != nil && !pf.meta && pf.here(p) {
+				other = reportSt[r.Intn(len(reportSt))]
+			}
+			switch r.Intn(3) {
+			case 0:
+				c.lists[p] = append(l, [2]int{e[0], other})
+			case 1:
+				c.lists[p] = append([][2]int{{e[0], other}}, l...)
+			default:
+				c.lists[p] = l[:len(l)-1]
+			}
+		}
+	}
 }
 
 func genGs(r *common.Rng) gcase {
@@ -1342,6 +1654,7 @@ func genGs(r *common.Rng) gcase {
 		}
 		c.order = append(c.order, i)
 	}
+	genGFaults(r, &c)
 	return c
 }
 
@@ -1369,11 +1682,13 @@ func main() {
 		return net
 	}
 	timeouts := 0
+	var curOpts *topts
 	guardedT := func(c tcase) (string, string) {
 		type rr struct{ res, inc string }
 		ch := make(chan rr, 1)
+		o := curOpts
 		go func() {
-			res, inc := runT(c)
+			res, inc := runTO(c, o)
 			ch <- rr{res, inc}
 		}()
 		select {
@@ -1383,9 +1698,14 @@ func main() {
 			return "", "timeout: case did not finish"
 		}
 	}
+	var curInput string
 	emitT := func(c tcase) {
+		input := c.input()
+		if curInput != "" {
+			input = curInput
+		}
 		if ok, why := c.realisable(); !ok {
-			out.Line("# skipped %s (%s)", c.input(), why)
+			out.Line("# skipped %s (%s)", input, why)
 			return
 		}
 		res, inc := guardedT(c)
@@ -1394,7 +1714,7 @@ func main() {
 			res, inc = guardedT(c)
 		}
 		if inc != "" {
-			out.Line("# inconclusive %s (%s)", c.input(), strings.ReplaceAll(inc, "\n", " "))
+			out.Line("# inconclusive %s (%s)", input, strings.ReplaceAll(inc, "\n", " "))
 			if strings.HasPrefix(inc, "timeout") {
 				timeouts++
 				if timeouts >= 8 {
@@ -1406,10 +1726,36 @@ func main() {
 			}
 			return
 		}
-		out.Line("%s => %s", c.input(), res)
+		out.Line("%s => %s", input, res)
+	}
+	emitTF := func(c tfcase) {
+		o, ok := c.opts()
+		if !ok {
+			out.Line("# skipped unparsable %s", c.input())
+			return
+		}
+		curOpts, curInput = o, c.input()
+		emitT(c.t)
+		curOpts, curInput = nil, ""
+	}
+	emitTR := func(c trcase) {
+		curOpts, curInput = &topts{recoverMode: c.mode}, c.input()
+		emitT(c.t)
+		curOpts, curInput = nil, ""
 	}
 	emitG := func(c gcase) {
 		res, inc := runG(getNet(), c)
+		for _, r := range c.replies {
+			if r == "t" && inc == "" {
+				quiet = 1500 * time.Millisecond
+				res2, inc2 := runG(getNet(), c)
+				quiet = 300 * time.Millisecond
+				if inc2 != "" || res2 != res {
+					inc = "timing: a never-answering member gave " + res + " then " + res2
+				}
+				break
+			}
+		}
 		if inc != "" {
 			out.Line("# inconclusive %s (%s)", c.input(), strings.ReplaceAll(inc, "\n", " "))
 			return
@@ -1435,6 +1781,18 @@ func main() {
 				} else {
 					out.Line("# skipped unparsable %s", line)
 				}
+			case "tf":
+				if c, ok := parseTF(f[2:]); ok {
+					emitTF(c)
+				} else {
+					out.Line("# skipped unparsable %s", line)
+				}
+			case "tr":
+				if c, ok := parseTR(f[2:]); ok {
+					emitTR(c)
+				} else {
+					out.Line("# skipped unparsable %s", line)
+				}
 			case "gc", "gs":
 				if c, ok := parseG(f[1], f[2:]); ok {
 					emitG(c)
@@ -1451,6 +1809,9 @@ func main() {
 	}
 	root := common.NewRng(common.Seed())
 	thorough := a.Tier == "thorough"
+	if thorough {
+		timeoutOneIn = 600
+	}
 	for k := 0; k < total; k++ {
 		if a.Only >= 0 && k != a.Only {
 			continue
@@ -1458,6 +1819,10 @@ func main() {
 		r := root.Fork(uint64(k))
 		if mode == "t" {
 			emitT(genT(r, k, total, thorough))
+		} else if mode == "tf" {
+			emitTF(genTF(r, k, total, thorough))
+		} else if mode == "tr" {
+			emitTR(genTR(r, k, total, thorough))
 		} else if k%2 == 0 {
 			emitG(genGc(r))
 		} else {
